@@ -265,6 +265,7 @@ def yield_vector(ctx, rule):
     n_acc = [0]
     top = [None]
     in_loop = [False]
+    depth_in_loop = [False]
 
     def uses_of_handles(f, handles, depth, where):
         """`handles`: locals of f holding `&mut v`.  Every call they are passed to must accumulate."""
@@ -296,7 +297,8 @@ def yield_vector(ctx, rule):
                 n_acc[0] += 1
                 acc_blocks.add((f.name, bi))
                 if f is not fn:
-                    in_loop[0] = in_loop[0] or top[0] in cyc
+                    # the event loop may itself have been moved into the helper that fills the vector
+                    in_loop[0] = in_loop[0] or top[0] in cyc or bi in f.cyclic_blocks() or depth_in_loop[0]
                 ctx.ob(rule, "yield|accumulated|%s|%s" % (where, seg), True, "requests are added to the yielded vector with %s" % seg, f.loc(bi))
             elif seg == "truncate" and pos == [0] and f is not fn and truncate_restores_entry(ctx, f, {i for i in handles if 1 <= i <= f.nargs}):
                 # `out.truncate(len_at_entry)` on an error path: what this call added is taken back, what the caller had collected stays
@@ -305,7 +307,10 @@ def yield_vector(ctx, rule):
                 g = facts.fns[p]
                 if f is fn:
                     top[0] = bi
+                was = depth_in_loop[0]
+                depth_in_loop[0] = was or (f is not fn and bi in f.cyclic_blocks())
                 uses_of_handles(g, {i + 1 for i in pos}, depth + 1, where + ">" + last_seg(p))
+                depth_in_loop[0] = was
             else:
                 ctx.ob(rule, "yield|only-accumulated|%s|%s" % (where, seg), False, "the yielded vector is handed by `&mut` to %s, which is not one of %s on it: requests already collected may be lost" % (p, sorted(ACCUMULATORS)), f.loc(bi))
 
